@@ -11,6 +11,7 @@ import (
 	"crypto/rsa"
 	"crypto/sha256"
 	"encoding/base64"
+	"encoding/json"
 	"fmt"
 	"net/http"
 	"net/http/httptest"
@@ -125,6 +126,11 @@ type HOp struct {
 	ClaimedClient int `json:"claimed_client,omitempty"`
 	// a public client identifies itself in the HTTP Basic header (empty password) instead of the client_id parameter
 	PublicBasic bool `json:"public_basic,omitempty"`
+	// the grant_type parameter is sent in this spelling instead of the registered one (e.g. "Authorization_Code"):
+	// no handler may answer it
+	GrantSpelling string `json:"grant_spelling,omitempty"`
+	// decide: the application replaces the stored request's session by a new one of its own (no code expiry recorded in it)
+	FreshSession bool `json:"fresh_session,omitempty"`
 	// advance
 	Ms int64 `json:"ms,omitempty"`
 	// setclient
@@ -186,7 +192,13 @@ func hashSecret(s string) []byte {
 	return h
 }
 
-func clientID(i int) string     { return fmt.Sprintf("c%d", i) }
+// client 1 is registered as "C0": it differs from client 0 ("c0") by letter case only (client ids are case-sensitive)
+func clientID(i int) string {
+	if i == 1 {
+		return "C0"
+	}
+	return fmt.Sprintf("c%d", i)
+}
 func clientSecret(i int) string { return fmt.Sprintf("secret-of-c%d", i) }
 func clientRedirect(i int) string {
 	return fmt.Sprintf("https://app-c%d.example/cb", i)
@@ -300,6 +312,9 @@ func errName(err error) string {
 
 func clientIndex(id string) int {
 	var i int
+	if id == "C0" {
+		return 1
+	}
 	if _, err := fmt.Sscanf(id, "c%d", &i); err != nil {
 		return -1
 	}
@@ -488,6 +503,9 @@ func (w *world) exec(op *HOp) HObs {
 			form.Set("scope", strings.Join(op.Smuggled, " "))
 			form.Set("audience", "https://smuggled.example/api")
 		}
+		if op.GrantSpelling != "" {
+			form.Set("grant_type", op.GrantSpelling)
+		}
 		w.claim(form, op)
 		req := w.postReq("/token", form, op.Auth)
 		ar, err := w.prov.NewAccessRequest(ctx, req, w.sess(""))
@@ -591,8 +609,11 @@ func (w *world) exec(op *HOp) HObs {
 				req.SetBasicAuth(url.QueryEscape(clientID(op.Auth)), url.QueryEscape(clientSecret(op.Auth)))
 			}
 		}
-		_, err := w.prov.NewIntrospectionRequest(ctx, req, w.sess(""))
+		ir, err := w.prov.NewIntrospectionRequest(ctx, req, w.sess(""))
 		o.Err = errName(err)
+		if err == nil && ir != nil && ir.IsActive() {
+			o.Scopes = []string{string(ir.GetTokenUse())}
+		}
 	case "device_auth":
 		form := url.Values{}
 		form.Set("client_id", clientID(op.BodyClient))
@@ -642,7 +663,9 @@ func (w *world) exec(op *HOp) HObs {
 		}
 		dr.GrantedScope = append(fosite.Arguments{}, op.Granted...)
 		dr.GrantedAudience = append(fosite.Arguments{}, op.GAud...)
-		if ss, ok := dr.GetSession().(interface{ SetSubject(string) }); ok {
+		if op.FreshSession {
+			dr.SetSession(w.sess(op.Subject))
+		} else if ss, ok := dr.GetSession().(interface{ SetSubject(string) }); ok {
 			ss.SetSubject(op.Subject)
 		}
 	case "device_poll":
@@ -699,9 +722,11 @@ func (w *world) exec(op *HOp) HObs {
 		if op.Hint == "other" {
 			use = "garbage"
 		}
-		_, _, err := w.prov.IntrospectToken(ctx, w.token(op.Tok, kind), use, w.sess(""), op.Scopes...)
+		tu, _, err := w.prov.IntrospectToken(ctx, w.token(op.Tok, kind), use, w.sess(""), op.Scopes...)
 		if err != nil {
 			o.Err = "inactive"
+		} else {
+			o.Scopes = []string{string(tu)} // the token use the introspection reports
 		}
 	case "advance":
 		time.Sleep(ms(op.Ms))
@@ -742,6 +767,12 @@ func (w *world) probe() []*HPayload {
 			tt = fosite.RefreshToken
 		} else {
 			tt = fosite.AccessToken
+		}
+		if w.jwt && tt == fosite.AccessToken {
+			// a JWT is read by resource servers from its own claims: scopes and audience are taken from there
+			if cl := jwtClaims(it.tok); cl != nil {
+				p.Scopes, p.Aud = claimStrings(cl["scp"]), claimStrings(cl["aud"])
+			}
 		}
 		if e := ar.GetSession().GetExpiresAt(tt); !e.IsZero() {
 			v := e.Sub(w.epoch).Milliseconds()
@@ -835,6 +866,9 @@ func coqHint(h string) string {
 }
 
 func coqOp(op *HOp) string {
+	if op.GrantSpelling != "" {
+		return fmt.Sprintf("OTokenOther %s", coqAuth(op.Auth))
+	}
 	switch op.Kind {
 	case "authorize":
 		rt := map[string]string{"": "RCode", "code": "RCode", "token": "RToken", "code token": "RCodeToken"}[op.RType]
@@ -861,7 +895,7 @@ func coqOp(op *HOp) string {
 	case "device_auth":
 		return fmt.Sprintf("ODeviceAuth %s %d %s %s", coqAuth(op.Auth), op.BodyClient, QL(op.Scopes), coqAurls(op.Aud))
 	case "decide":
-		return fmt.Sprintf("ODecide %s %s %s %s %s", coqTok(op.Tok), B(op.Accept), QL(op.Granted), coqAurls(op.GAud), Q(op.Subject))
+		return fmt.Sprintf("ODecide %s %s %s %s %s %s", coqTok(op.Tok), B(op.Accept), QL(op.Granted), coqAurls(op.GAud), Q(op.Subject), B(op.FreshSession))
 	case "device_poll":
 		return fmt.Sprintf("ODevicePoll %s %s", coqAuth(op.Auth), coqTok(op.Tok))
 	case "password":
@@ -992,4 +1026,36 @@ func (w *world) authSess(subject string) fosite.Session {
 		return w.sess(subject)
 	}
 	return &openid.DefaultSession{Subject: subject, Claims: &jwt.IDTokenClaims{Subject: subject}, Headers: &jwt.Headers{}}
+}
+
+
+func jwtClaims(tok string) map[string]interface{} {
+	parts := strings.Split(tok, ".")
+	if len(parts) != 3 {
+		return nil
+	}
+	b, err := base64.RawURLEncoding.DecodeString(parts[1])
+	if err != nil {
+		return nil
+	}
+	var m map[string]interface{}
+	if json.Unmarshal(b, &m) != nil {
+		return nil
+	}
+	return m
+}
+
+func claimStrings(v interface{}) []string {
+	out := []string{}
+	switch x := v.(type) {
+	case string:
+		out = append(out, x)
+	case []interface{}:
+		for _, e := range x {
+			if s, ok := e.(string); ok {
+				out = append(out, s)
+			}
+		}
+	}
+	return out
 }
